@@ -208,6 +208,23 @@ func runC06(r *an.Run) {
 					o.FailAt("RevokeAndAck-literal<-"+id, ref.Where, "a revoke_and_ack message is constructed in %s", id)
 				}
 			}
+			// every caller of generateRevocation and the height it releases
+			callers := map[string]string{
+				lw + "LightningChannel.RevokeCurrentCommitment": "$recv.currentHeight",
+				lw + "LightningChannel.ProcessChanSyncMsg":      "($recv.commitChains.Local.tail().height - 1)",
+			}
+			for _, fn := range p.Funcs(false, "lnwallet") {
+				for _, s := range fn.Calls(an.CalleeIs(lw+"LightningChannel.generateRevocation"), true) {
+					a := fn.ArgCanon(s)
+					o.Site("%s releases height %s", fn.Root().ID, a[0])
+					want, ok := callers[fn.Root().ID]
+					if !ok {
+						o.FailAt(fn.Root().ID+"#releases-secret", s.Where(), "%s releases a revocation secret; only RevokeCurrentCommitment and the reconnect path may", fn.Root().ID)
+					} else if a[0] != want {
+						o.FailAt(fn.Root().ID+"#released-height", s.Where(), "%s releases the secret of height %s, expected %s", fn.Root().ID, a[0], want)
+					}
+				}
+			}
 			g := p.Func(lw + "LightningChannel.ProcessChanSyncMsg")
 			for _, s := range g.Calls(an.CalleeIs(lw+"LightningChannel.generateRevocation"), false) {
 				a := g.ArgCanon(s)
